@@ -31,6 +31,7 @@ inductive SeqOp (α : Type) where
   | eraseRange (r a b : Nat)                    -- r.erase(begin+a, begin+b)
   | swap (r q : Nat)                            -- r.swap(q)
   | setAt (r i : Nat) (x : α)                   -- r[i] = x
+  | obs (r : Nat)                               -- to_string(r) / size() / iteration: an observation, changes nothing
 deriving Repr
 
 abbrev Regs (α : Type) := Nat → List α
@@ -54,6 +55,7 @@ def SeqOp.apply {α} (g : Regs α) : SeqOp α → Regs α
   | .eraseRange r a b => if a ≤ b ∧ b ≤ (g r).length then g.put r ((g r).take a ++ (g r).drop b) else g
   | .swap r q => (g.put r (g q)).put q (g r)
   | .setAt r i x => if i < (g r).length then g.put r ((g r).set i x) else g
+  | .obs _ => g
 
 def SeqOp.run {α} (g : Regs α) (ops : List (SeqOp α)) : Regs α := ops.foldl SeqOp.apply g
 
@@ -70,6 +72,7 @@ def SeqOp.map {α β} (f : α → β) : SeqOp α → SeqOp β
   | .eraseRange r a b => .eraseRange r a b
   | .swap r q => .swap r q
   | .setAt r i x => .setAt r i (f x)
+  | .obs r => .obs r
 
 def Regs.map {α β} (f : α → β) (g : Regs α) : Regs β := fun r => (g r).map f
 
